@@ -1101,8 +1101,22 @@ func genWeatherFault(sc *Scenario, r *Rng) {
 		from = r.Range(s0+30, e0-45)
 		to = from + r.Range(0, 40)
 		if r.Bool(0.25) {
-			to = Date{DateOfZeit(from).Y, 12, 31}.Zeit() // year-end gap
-			from = to - r.Range(0, 20)
+			// year-end gap, inside the simulated period: the end of a year before the end year, or - when the simulation
+			// runs into the last days of December - the end of the end year itself (the series goes on in the next year)
+			y := DateOfZeit(from).Y
+			if (Date{y, 12, 31}).Zeit() > e0 {
+				y--
+			}
+			if sc.End.M == 12 && sc.End.D >= 12 && r.Bool(0.5) {
+				y = sc.End.Y
+			}
+			if y >= sc.Start.Y && (Date{y, 12, 31}).Zeit() > s0+25 {
+				to = Date{y, 12, 31}.Zeit()
+				from = to - r.Range(0, 20)
+				if from > e0 {
+					from = e0 - r.Range(0, 3)
+				}
+			}
 		}
 		// keep the gap inside one calendar year and off its first/last day (a clean "missing days" case)
 		fy := DateOfZeit(from).Y
